@@ -77,8 +77,18 @@ func execAttempt(t *trace, script []string) {
 				log.Add("%s %d", strings.TrimPrefix(e.Name, "attempt."), e.N)
 			}
 		})
-		log.Add("start %d pre=%d %d %d", count, pre, rateUs, pace)
 		c := bigbuff.LinearAttempt(ctx, time.Duration(rateUs)*time.Microsecond, count)
+		if mode == 1 && pre == 0 && len(c) == 0 && ctx.Err() != nil {
+			// the deadline had already passed when LinearAttempt looked at the context (this goroutine was descheduled
+			// for longer than the deadline): the call was made with a cancelled context
+			pre = 1
+		}
+		log.Add("start %d pre=%d %d %d", count, pre, rateUs, pace)
+		if mode == 1 && cancelUs >= 0 && pre == 0 {
+			// a deadline may pass at any moment from now on: the context "is being cancelled" for the whole run, and
+			// "cancelled" once this goroutine has seen Done closed
+			log.Add("cancelling")
+		}
 		chPtr = reflect.ValueOf(c).Pointer()
 		close(ready)
 		hasGoroutine := pre == 0 && count > 1
@@ -98,10 +108,9 @@ func execAttempt(t *trace, script []string) {
 		if pace != 2 {
 			go recvLoop()
 		}
-		if cancelUs >= 0 {
+		if cancelUs >= 0 && pre == 0 {
 			if mode == 1 {
 				<-ctx.Done() // the deadline passes
-				log.Add("cancelling")
 			} else {
 				time.Sleep(time.Duration(cancelUs) * time.Microsecond)
 				log.Add("cancelling")
